@@ -13,13 +13,15 @@
 (***************************************************************************)
 EXTENDS GseSender, TLC
 
-CONSTANTS PduLens,      \* set of PDU lengths explored
+CONSTANTS ExtLens,      \* on-wire sizes of the extension area explored (0 = plain encap; > 0 = encap_ext, C13)
+          PduLens,      \* set of PDU lengths explored
           Bufs,         \* set of buffer sizes a schedule may offer
           AllFills,     \* TRUE: a fragment may take any admissible number of bytes; FALSE: only 1 or the maximum
           MaxCalls      \* bound on successful calls per chain (state constraint for the real family)
 
 VARIABLES phase,     \* "idle" | "frag" | "done"
           P, wll,    \* PDU length; length of the label as written in the first packet (0, 3, 6)
+          ext,       \* bytes of extension headers between label and payload in the first / complete packet
           sent,      \* sender context: payload bytes carried so far
           rxLen,     \* receiver context: payload bytes stored so far
           delivered, \* completed PDUs delivered by the receiver
@@ -27,12 +29,12 @@ VARIABLES phase,     \* "idle" | "frag" | "done"
           calls7,    \* successful continuation calls made with a buffer >= 7
           rem0,      \* bytes remaining right after the first fragment
           pkt        \* ghost: last emitted packet [kind, gseLen, len, buf, from, n]
-vars == <<phase, P, wll, sent, rxLen, delivered, calls, calls7, rem0, pkt>>
+vars == <<phase, P, wll, ext, sent, rxLen, delivered, calls, calls7, rem0, pkt>>
 
 NoPkt == [kind |-> "none", gseLen |-> 0, len |-> 0, buf |-> 0, from |-> 0, n |-> 0]
 
 Init ==
-  /\ phase = "idle" /\ P \in PduLens /\ wll \in {0, 3, 6}
+  /\ phase = "idle" /\ P \in PduLens /\ wll \in {0, 3, 6} /\ ext \in ExtLens
   /\ sent = 0 /\ rxLen = 0 /\ delivered = 0 /\ calls = 0 /\ calls7 = 0 /\ rem0 = 0 /\ pkt = NoPkt
 
 FirstFixed == FragIdLen + TotalLenLen + PtypeLen     \* 5 bytes of a first fragment counted by GSE length besides label and payload
@@ -44,25 +46,25 @@ Fills(maxn, minn) ==
 \* ---------------------------------------------------------------- first call
 EncapReject(B) ==       \* C09: PDU exceeding the 16-bit total length
   /\ phase = "idle" /\ TotalTooLong(P, wll)
-  /\ pkt' = NoPkt /\ UNCHANGED <<phase, P, wll, sent, rxLen, delivered, calls, calls7, rem0>>
+  /\ pkt' = NoPkt /\ UNCHANGED <<phase, P, wll, ext, sent, rxLen, delivered, calls, calls7, rem0>>
 
 EncapComplete(B) ==     \* C01: must complete whenever it fits
-  /\ phase = "idle" /\ ~TotalTooLong(P, wll) /\ CompleteFits(P, wll, 0, B)
-  /\ pkt' = [kind |-> "complete", gseLen |-> PtypeLen + wll + P, len |-> CompleteHdr(wll, 0) + P, buf |-> B, from |-> 0, n |-> P]
+  /\ phase = "idle" /\ ~TotalTooLong(P, wll) /\ CompleteFits(P, wll, ext, B)
+  /\ pkt' = [kind |-> "complete", gseLen |-> PtypeLen + wll + ext + P, len |-> CompleteHdr(wll, ext) + P, buf |-> B, from |-> 0, n |-> P]
   /\ phase' = "done" /\ sent' = P /\ rxLen' = P /\ delivered' = delivered + 1 /\ calls' = calls + 1
-  /\ UNCHANGED <<P, wll, calls7, rem0>>
+  /\ UNCHANGED <<P, wll, ext, calls7, rem0>>
 
 EncapFirst(B) ==
-  /\ phase = "idle" /\ ~TotalTooLong(P, wll) /\ ~CompleteFits(P, wll, 0, B)
-  /\ B >= FirstHdr(wll, 0)
-  /\ \E n \in Fills(MinI(P, MinI(B - FirstHdr(wll, 0), GseLenMax - FirstFixed - wll)), 0) :
-     /\ pkt' = [kind |-> "first", gseLen |-> FirstFixed + wll + n, len |-> FirstHdr(wll, 0) + n, buf |-> B, from |-> 0, n |-> n]
+  /\ phase = "idle" /\ ~TotalTooLong(P, wll) /\ ~CompleteFits(P, wll, ext, B)
+  /\ B >= FirstHdr(wll, ext)
+  /\ \E n \in Fills(MinI(P, MinI(B - FirstHdr(wll, ext), GseLenMax - FirstFixed - wll - ext)), 0) :
+     /\ pkt' = [kind |-> "first", gseLen |-> FirstFixed + wll + ext + n, len |-> FirstHdr(wll, ext) + n, buf |-> B, from |-> 0, n |-> n]
      /\ phase' = "frag" /\ sent' = n /\ rxLen' = n /\ rem0' = P - n /\ calls' = calls + 1
-     /\ UNCHANGED <<P, wll, delivered, calls7>>
+     /\ UNCHANGED <<P, wll, ext, delivered, calls7>>
 
 EncapTooSmall(B) ==     \* only buffers below 13 bytes may be refused as too small (C02)
-  /\ phase = "idle" /\ ~TotalTooLong(P, wll) /\ ~CompleteFits(P, wll, 0, B) /\ B < 13
-  /\ pkt' = NoPkt /\ UNCHANGED <<phase, P, wll, sent, rxLen, delivered, calls, calls7, rem0>>
+  /\ phase = "idle" /\ ~TotalTooLong(P, wll) /\ ~CompleteFits(P, wll, ext, B) /\ B < 13 + ext
+  /\ pkt' = NoPkt /\ UNCHANGED <<phase, P, wll, ext, sent, rxLen, delivered, calls, calls7, rem0>>
 
 \* ------------------------------------------------------------- continuation
 FragEnd(B) ==
@@ -75,7 +77,7 @@ FragEnd(B) ==
   /\ delivered' = IF rxLen + (P - sent) = P THEN delivered + 1 ELSE delivered
   /\ phase' = "done" /\ sent' = P /\ rxLen' = rxLen + (P - sent) /\ calls' = calls + 1
   /\ calls7' = IF B >= 7 THEN calls7 + 1 ELSE calls7
-  /\ UNCHANGED <<P, wll, rem0>>
+  /\ UNCHANGED <<P, wll, ext, rem0>>
 
 FragInter(B) ==
   /\ phase = "frag"
@@ -83,11 +85,11 @@ FragInter(B) ==
      /\ pkt' = [kind |-> "inter", gseLen |-> FragIdLen + n, len |-> InterHdr + n, buf |-> B, from |-> sent, n |-> n]
      /\ sent' = sent + n /\ rxLen' = rxLen + n /\ calls' = calls + 1
      /\ calls7' = IF B >= 7 THEN calls7 + 1 ELSE calls7
-     /\ UNCHANGED <<phase, P, wll, delivered, rem0>>
+     /\ UNCHANGED <<phase, P, wll, ext, delivered, rem0>>
 
 FragTooSmall(B) ==      \* only buffers below 7 bytes may be refused (C11)
   /\ phase = "frag" /\ B < 7
-  /\ pkt' = NoPkt /\ UNCHANGED <<phase, P, wll, sent, rxLen, delivered, calls, calls7, rem0>>
+  /\ pkt' = NoPkt /\ UNCHANGED <<phase, P, wll, ext, sent, rxLen, delivered, calls, calls7, rem0>>
 
 Next ==
   \E B \in Bufs :
@@ -96,12 +98,12 @@ Next ==
 
 Spec == Init /\ [][Next]_vars
 \* a buffer of at least 13 bytes is offered again and again
-FairSpec == Spec /\ WF_vars(\E B \in {b \in Bufs : b >= 13} :
+FairSpec == Spec /\ WF_vars(\E B \in {b \in Bufs : b >= 13 + ext} :
                               EncapComplete(B) \/ FragEnd(B) \/ EncapFirst(B) \/ FragInter(B))
 
 Bounded == calls <= MaxCalls
 \* ghosts hidden from the fingerprint: the last packet, and (in the small family) the call counter
-View == <<phase, P, wll, sent, rxLen, delivered, calls7, rem0, IF MaxCalls < 100 THEN calls ELSE 0>>
+View == <<phase, P, wll, ext, sent, rxLen, delivered, calls7, rem0, IF MaxCalls < 100 THEN calls ELSE 0>>
 
 \* ------------------------------------------------------------- invariants
 \* C06: every emitted packet is length-accurate and fits
@@ -114,7 +116,7 @@ PacketsAlways == [][WellSized' /\ Partition']_vars
 DeliveredOnce == IF phase = "done" THEN delivered = 1 /\ rxLen = P ELSE delivered = 0
 \* C02: no buffer of 13 bytes or more is refused on the first call (unless the PDU must be rejected)
 Buf13Accepted == phase = "idle" /\ ~TotalTooLong(P, wll) =>
-                   \A B \in {b \in Bufs : b >= 13} : CompleteFits(P, wll, 0, B) \/ B >= FirstHdr(wll, 0)
+                   \A B \in {b \in Bufs : b >= 13 + ext} : CompleteFits(P, wll, ext, B) \/ B >= FirstHdr(wll, ext)
 \* C11: no buffer of 7 bytes or more is refused by a continuation call
 Buf7Accepted == phase = "frag" =>
                    \A B \in {b \in Bufs : b >= 7} :
